@@ -30,6 +30,9 @@ def sh(cmd, cwd, env=None, timeout=1800):
         return 124, "timeout"
 
 
+CHECKS_ONLY = "--checks-only" in sys.argv
+
+
 def verify(base, pid, k):
     d = os.path.join(base, pid, "REF", k)
     patch = os.path.join(d, "patch.diff")
@@ -37,10 +40,15 @@ def verify(base, pid, k):
     if not os.path.isfile(patch):
         out["status"] = "no patch"
         return out
+    if CHECKS_ONLY:
+        out["status"] = "(not re-verified)"
     wt = tempfile.mkdtemp(prefix="refchk_", dir="/tmp")
     os.rmdir(wt)
     subprocess.check_call(["git", "-C", "/repo", "worktree", "add", "-q", "--detach", wt, "HEAD"])
     try:
+        if CHECKS_ONLY:
+            raise StopIteration
+
         env = {"PYTHONPATH": wt, "PYTHONDONTWRITEBYTECODE": "1", "PYTHONHASHSEED": "0"}
         rc, o = sh(["git", "apply", patch], wt)
         if rc:
@@ -59,6 +67,8 @@ def verify(base, pid, k):
         out["equiv_same"] = d_mut == d_clean and d_mut is not None and d_mut[0] == 0
         out["equiv"] = (d_mut, d_clean)
         out["status"] = "verified" if "428 passed" in tail and out["equiv_same"] else "NOT VERIFIED"
+    except StopIteration:
+        pass
     finally:
         subprocess.call(["git", "-C", "/repo", "worktree", "remove", "--force", wt])
     res = run_checks(patch)
@@ -76,14 +86,14 @@ def verify(base, pid, k):
 
 if __name__ == "__main__":
     base = sys.argv[1]
-    pids = sys.argv[2:] or sorted(p for p in os.listdir(base) if os.path.isdir(os.path.join(base, p, "REF")))
+    pids = [a for a in sys.argv[2:] if not a.startswith("--")] or sorted(p for p in os.listdir(base) if os.path.isdir(os.path.join(base, p, "REF")))
     tasks = [(base, p, k) for p in pids for k in sorted(os.listdir(os.path.join(base, p, "REF"))) if os.path.isdir(os.path.join(base, p, "REF", k))]
     results = []
-    with ThreadPoolExecutor(5) as ex:
+    with ThreadPoolExecutor(8 if CHECKS_ONLY else 5) as ex:
         for r in ex.map(lambda t: verify(*t), tasks):
             results.append(r)
             noisy = {**r.get("fired", {}), **{k: v for k, v in r.get("errors", {}).items()}}
             print(f"{r['id']:14s} {r.get('status', '?'):14s} suite={r.get('suite', '')[:24]:24s} fired={sorted(r.get('fired', {}))} "
                   f"errors={sorted(r.get('errors', {}))} :: {r.get('meta', {}).get('kind', '')[:30]} - {r.get('meta', {}).get('summary', '')[:90]}",
                   flush=True)
-    json.dump(results, open(os.path.join(base, "refcheck.json"), "w"), indent=1, default=str)
+    json.dump(results, open(os.path.join(base, "refcheck_" + "_".join(pids)[:60] + ".json"), "w"), indent=1, default=str)
